@@ -262,6 +262,7 @@ func remoteRegistry(ctx context.Context, r *lib.Run) {
 func main() {
 	r := lib.Start("C19", "exploration")
 	r.Rule = "PRNG push sequences (4-12 pushes over 3 subject artifacts; JWS/COSE media types; envelope sizes 1 B - 1 MiB, all distinct) interleaved with foreign referrers (other artifact type; image manifest of notation type whose LAYER is the subject, with another or no subject; subject differing only in media type / size; legacy artifact manifests with matching and non-matching subject) and hostile signature manifests (0 or 2 layers, layer declared > 32 MiB, manifest descriptor declared > 4 MiB, a real 32 MiB+1 envelope); each on an on-disk OCI layout (checked live and reopened) and on an in-memory store; distinct by (sequence, subject, observer); non-trivial = every listing / fetch"
+	r.Rule += "; plus the same round trips over an in-process registry (distribution + referrers API, 0-3 referrers per page), near-miss artifact types, oversized legacy manifests, under-declared blob sizes, a custom envelope media type, a large index above the subject"
 	r.Assumptions = []string{"oras adds org.opencontainers.image.created to manifests: annotations are compared as pushed ⊆ listed with extras limited to that key",
 		"a refusal to open or list a layout that contains an inconsistent hostile manifest is a refusal, not a wrong listing; byte-identical re-pushes are idempotent (the model is a set)"}
 	ctx := context.Background()
